@@ -21,6 +21,9 @@ Definition fmt_ints : list Z -> list (list Z) := ints_to_strings_pinned.
 Definition fmt_int_lists : Z -> list (list Z) -> list (list Z) := int_lists_to_strings_pinned.
 (* ---- the same for notes/C18.fix-2.diff (leading '+' on float texts) ---- *)
 Definition parse_floats : list (list Z) -> option (list (bool * Z * Z * Z)) := str_to_float_rows_pinned.
+(* ---- list column: /repo commit 8a5819c (= notes/C02.fix-2.diff, rows regrouped by non-empty items) is in;
+        before it the code was parse_split_ints_pinned ---- *)
+Definition parse_lists : Z -> list (list Z) -> option (list (list Z)) := parse_split_ints.
 
 Definition parse_tol : Z := 8.     (* float parsing tolerance in half-ulps: 4 ulp *)
 
@@ -91,7 +94,7 @@ Definition run_model (c : case) (r : run) : bool :=
     opt_eqb zll_eqb out
       (option_map (map (fun v => [v])) (if route =? 1 then int_column sel else str_to_int_rows sel))
   else if kind =? 2 then opt_eqb zll_eqb out (Some (fmt_int_lists 44 sel))
-  else if kind =? 3 then opt_eqb zll_eqb out (parse_split_ints 44 sel)
+  else if kind =? 3 then opt_eqb zll_eqb out (parse_lists 44 sel)
   else if kind =? 4 then
     match out with
     | Some outs => float_rows_ok sel (map hd0 outs)
